@@ -183,7 +183,7 @@ def refusal_tables(v):
         return 'marker_query' in repr(f) and repr(denom) in repr(f)
     req = 'ask_required_attributes' if v == 'CreateAsk' else 'bid_required_attributes'
     T = [
-        ('id-not-canonical', 'L', or_id),
+        ('id-not-canonical', 'L', lambda e: id_not_canonical_fact(e['fact'], M(v, 'id'))),
         ('empty-field', 'L', lambda e: e['fact'] is not None and e['fact'][0] == 'val' and e['fact'][2] is True and e['fact'][1][0] == 'is_empty' and e['fact'][1][1][0] == 'msg'),
         ('size-below-1', 'L', lambda e: is_sign(e['fact'], M(v, 'size'), 'zero') or is_sign(e['fact'], M(v, 'quote_size'), 'zero')),
         ('config-load', 'I', lambda e: is_storage_load_err(e['fact'], 'contract_info')),
